@@ -191,6 +191,8 @@ def ref(e: Any) -> tuple[Any, Any]:
             raise DontCare(f"unit {n} not in the reference table")
         return values.unit_factor(n), values.unit_dim(n)
     if isinstance(e, Prefix):
+        if str(e.name) not in values.PREFIXES:
+            raise DontCare(f"prefix object {e.name} made up by sympy")
         return sp.Integer(10)**values.PREFIXES[str(e.name)], dims.ONE
     if isinstance(e, sp.Derivative):
         raise Refuse("unevaluated derivative")
@@ -266,15 +268,17 @@ def judge(e: Any) -> tuple[str, str]:
         want = r
     except DontCare as r:
         want = r
+    except (OverflowError, MemoryError, RecursionError, ValueError, TypeError, ZeroDivisionError) as r:
+        want = DontCare(f"reference cannot evaluate this tree: {type(r).__name__}")
     try:
         q = Quantity(e)
         got: Any = (q.scale_factor, q.dimension)
     except REFUSALS as ex:
         got = ex
-    except RecursionError as ex:
+    except (RecursionError, OverflowError) as ex:
         got = ex
     if isinstance(want, DontCare):
-        if isinstance(got, Exception) and not isinstance(got, REFUSALS):
+        if isinstance(got, Exception) and not isinstance(got, REFUSALS + (OverflowError, )):
             return "dontcare", f"unexpected exception {type(got).__name__}: {short(got)}"
         return "dontcare", ""
     if isinstance(want, Refuse):
@@ -286,6 +290,12 @@ def judge(e: Any) -> tuple[str, str]:
             f"dimension {got[1]}")
     wv, wd = want
     if isinstance(got, Exception):
+        try:
+            big = abs(complex(sp.N(wv, 15)))
+            if big == float("inf") or big > 1e300:
+                return "dontcare", ""
+        except (OverflowError, TypeError, ValueError):
+            return "dontcare", ""  # value outside the float range the constructor tests with
         return "accepted", (f"refused with {type(got).__name__}: {str(got)[:150]} but the reference "
             f"gives value {short(wv)} and dimension {wd}")
     gv, gd = got
